@@ -539,6 +539,34 @@ func buildC02(tier string) *core.Plan {
 			}
 		}})
 
+	// empty containers put into several documents by one layer, then filled in ONE of them
+	{
+		eb := [][]any{
+			{map[string]any{"id": 1, "e": 0}, map[string]any{"id": 2, "e": 0}},
+			{map[string]any{"id": 1}, map[string]any{"id": 2}, map[string]any{"id": 1}},
+			{map[string]any{"id": 1, "e": nil}, map[string]any{"id": 2, "e": nil}},
+		}
+		empties := []any{map[string]any{"e": map[string]any{}}, map[string]any{"e": []any{}}, map[string]any{"e": map[string]any{"in": map[string]any{}}}, map[string]any{"e": []any{[]any{}}},
+			map[string]any{"e": map[string]any{}, "f": []any{}}}
+		fills := []c02Doc{
+			{HasSel: true, Sel: map[string]any{"id": 1}, Body: map[string]any{"e": map[string]any{"x": 1}}},
+			{HasSel: true, Sel: map[string]any{"id": 2}, Body: map[string]any{"e": []any{1}}},
+			{HasSel: true, Sel: map[string]any{"id": 1}, Body: map[string]any{"e": map[string]any{"in": map[string]any{"y": 2}}}},
+			{HasSel: true, Sel: map[string]any{"id": 2}, Body: map[string]any{"e": []any{[]any{3}}, "f": []any{4}}},
+			{HasSel: true, Sel: map[string]any{"id": 1, "$invert": true}, Body: map[string]any{"e": map[string]any{"z": 3}}},
+		}
+		ne, nf := int64(len(empties)), int64(len(fills))
+		spaces = append(spaces, core.Space{Name: "empty-containers-shared-then-filled-in-one-document", N: int64(len(eb)) * ne * nf,
+			Desc: func(i int64) any {
+				return map[string]any{"base": eb[i/(ne*nf)], "layer1": empties[(i/nf)%ne], "layer2": fills[i%nf].data()}
+			},
+			Run: func(c *core.Ctx, i int64) {
+				base, e, f := eb[i/(ne*nf)], empties[(i/nf)%ne], fills[i%nf]
+				c02History(c, "refStream-empty-containers", base, [][]c02Doc{{{Body: e}}, {f}})
+				c02History(c, "refStream-empty-containers", base, [][]c02Doc{{{HasSel: true, Sel: map[string]any{}, Body: e}}, {f}, {fills[(i+1)%nf]}})
+			}})
+	}
+
 	// the same histories through files: a.<ext> (base stream), a.b.<ext>, a.b.c.<ext>
 	fileBases := c02Streams(c02BaseDocs[:4], 2)
 	fl1 := c02TargetLayers(1, 2)
